@@ -4,8 +4,10 @@ From TT Require Import Lib.Base Model.Result Spec.C04 Corr.C04 Proof.C04.
 
 (* The model meets the whole statement for every stack (any nesting of MultiTestResult,
    ThreadsafeForwardingResult, ExtendedToOriginalDecorator, TestResultDecorator/Tagger over TestResult /
-   TextTestResult / ExtendedToStreamDecorator results), every failfast configuration outside known finding F18,
-   and every history of calls. *)
+   TextTestResult / ExtendedToStreamDecorator results and over ExtendedToOriginalDecorator-wrapped foreign results
+   of ANY capability record: unittest.TestResult, 2.6 / 2.7 / extended / Twisted-style objects), every failfast
+   configuration outside known finding F18, and every history of calls - outcomes reported with a details dict or
+   the original way. *)
 Theorem C04_holds : forall i : input, wf i -> finding_F18 i = false -> spec_okb i (model i) = true.
 Proof. exact model_meets_spec. Qed.
 Print Assumptions C04_holds.
@@ -32,7 +34,7 @@ Proof. exact finding_F18_confined. Qed.
 Print Assumptions C04_F18_confined.
 
 (* verdict: wasSuccessful() after any calls = no error / failure / unexpected success since the last startTestRun *)
-Theorem C04_verdict : forall i pre, wf i -> finding_F18 i = false -> has_e2s i = false ->
+Theorem C04_verdict : forall i pre, wf i -> finding_F18 i = false -> has_e2s i = false -> has_foreign i = false ->
   was_ok (fold_left do_op pre (init (stack i) (set_after i))) = want_ok pre.
 Proof. exact was_ok_after. Qed.
 Print Assumptions C04_verdict.
@@ -49,7 +51,8 @@ Proof. exact sums_after. Qed.
 Print Assumptions C04_summary.
 
 (* failfast / stop: shouldStop of every underlying result after any calls = stop() was called on it or on
-   something above it, or failfast is set and a bad outcome was reported - since the last startTestRun;
+   something above it, or failfast is set and a bad outcome was reported - since the last startTestRun
+   (Spec.C04.scope: for a foreign result, which never clears shouldStop, since it was created);
    in particular not before the first bad outcome *)
 Theorem C04_failfast : forall i pre, finding_F18 i = false ->
   leaf_stops (fold_left do_op pre (init (stack i) (set_after i)))
@@ -65,6 +68,22 @@ Theorem C04_stop_reaches : forall p n,
   /\ should_stop n = existsb (fun b => b) (leaf_stops n).
 Proof. exact (fun p n => conj (stop_at_reaches p n) (conj (stop_reaches_all n) (should_stop_any n))). Qed.
 Print Assumptions C04_stop_reaches.
+
+(* ExtendedToOriginalDecorator over a foreign result, every path of its outcome methods (the object has / lacks
+   addUnexpectedSuccess, accepts / refuses details=, has a failfast attribute or the decorator keeps _failfast,
+   acts on failfast itself or not, has stop() or the decorator keeps _shouldStop; details passed or not): the
+   target's shouldStop becomes true exactly when failfast is set and the outcome is an error, a failure or an
+   unexpected success; stop() reaches it; assigning failfast on the decorator is what it then reads *)
+Theorem C04_foreign_paths : forall (f : fo) (k : kind) (d : bool),
+  fo_stopped (fo_outcome f k d) = fo_stopped f || (bad k && fo_ff f).
+Proof. exact fo_stopped_outcome. Qed.
+Print Assumptions C04_foreign_paths.
+
+Theorem C04_foreign_control : forall (f : fo) (b : bool),
+  should_stop (stop (NFor f)) = true /\ get_ff (set_ff b (NFor f)) = b
+  /\ should_stop (set_ff b (NFor f)) = should_stop (NFor f).
+Proof. exact (fun f b => conj eq_refl (conj eq_refl eq_refl)). Qed.
+Print Assumptions C04_foreign_control.
 
 (* one call, seen from the underlying results: each receives it (as a whole test below a forwarder) and is
    stopped exactly when the call is a bad outcome and the stack's failfast reaches it - for EVERY state *)
@@ -94,11 +113,30 @@ Print Assumptions C04_obs_eqb.
    forwarder reaches its TextTestResult only *)
 Example C04_example :
   let i := {| stack := AMulti [ATFR (ATR false true); AE2O (ATR false false)]; set_after := Some true;
-              hist := [StartRun; StartTest 1; Outcome KSuccess 1; StopTest 1; StartTest 2; Outcome KFailure 2;
+              hist := [StartRun; StartTest 1; Outcome KSuccess true 1; StopTest 1; StartTest 2; Outcome KFailure false 2;
                        StopTest 2; StopRun; StartRun; StopAt [0]] |} in
   wf i /\ finding_F18 i = false
   /\ o_ok (model i) = [true; true; true; true; true; false; false; false; true; true]
   /\ o_stop (model i) = [false; false; false; false; false; true; true; true; false; true]
   /\ nth 9 (o_leaf_stop (model i)) [] = [true; false]
   /\ o_sums (model i) = [[{| s_ran := 2; s_failed := Some 1; s_sections := [(1, 2)] |}]; []].
+Proof. vm_compute. repeat split. Qed.
+
+(* non-vacuity, foreign results: failfast assigned on a MultiTestResult over a decorated extended-API object (has a
+   failfast attribute, does not act on it, accepts details) and a decorated 2.6-style object (no failfast, no
+   addUnexpectedSuccess); an expected failure does not stop, the unexpected success reported with details stops
+   both, and a new startTestRun does not clear a foreign result's shouldStop *)
+Example C04_example_foreign :
+  let ext := {| fc_uxs := true; fc_uxs_details := true; fc_details := true; fc_failfast := true; fc_acts := false;
+                fc_stop := true; fc_uxs_counts := true; fc_resets := true |} in
+  let py26 := {| fc_uxs := false; fc_uxs_details := false; fc_details := false; fc_failfast := false;
+                 fc_acts := false; fc_stop := true; fc_uxs_counts := false; fc_resets := false |} in
+  let i := {| stack := AMulti [AFor ext; AFor py26]; set_after := Some true;
+              hist := [StartRun; StartTest 1; Outcome KXfail true 1; StopTest 1; StartTest 2;
+                       Outcome KUxsuccess true 2; StopTest 2; StartRun] |} in
+  wf i /\ finding_F18 i = false
+  /\ o_leaf_stop (model i) = [[false; false]; [false; false]; [false; false]; [false; false]; [false; false];
+                              [true; true]; [true; true]; [true; true]]
+  /\ o_ok (model i) = [true; true; true; true; true; false; false; false]
+  /\ spec_okb i (model i) = true.
 Proof. vm_compute. repeat split. Qed.
